@@ -151,6 +151,11 @@ func (p Precompile) Delegate(
 		}
 	}
 
+	// The message server debits the delegated amount and, through the distribution hooks, pays out the
+	// pending rewards of an existing delegation to the same validator: remember the delegator's balance
+	// to mirror what really happened to it.
+	balanceBefore := p.stakingKeeper.GetBondDenomBalance(ctx, contract.CallerAddress.Bytes())
+
 	// Execute the transaction using the message server
 	msgSrv := stakingkeeper.NewMsgServerImpl(&p.stakingKeeper)
 	if _, err = msgSrv.Delegate(sdk.WrapSDKContext(ctx), msg); err != nil {
@@ -172,7 +177,13 @@ func (p Precompile) Delegate(
 	// NOTE: This ensures that the changes in the bank keeper are correctly mirrored to the EVM stateDB.
 	// This prevents the stateDB from overwriting the changed balance in the bank keeper when committing the EVM state.
 	if isCallerDelegator {
-		stateDB.(*statedb.StateDB).SubBalance(contract.CallerAddress, msg.Amount.Amount.BigInt())
+		balanceAfter := p.stakingKeeper.GetBondDenomBalance(ctx, contract.CallerAddress.Bytes())
+		switch diff := balanceAfter.Amount.Sub(balanceBefore.Amount); {
+		case diff.IsNegative():
+			stateDB.(*statedb.StateDB).SubBalance(contract.CallerAddress, diff.Neg().BigInt())
+		case diff.IsPositive():
+			stateDB.(*statedb.StateDB).AddBalance(contract.CallerAddress, diff.BigInt())
+		}
 	}
 
 	return method.Outputs.Pack(true)
